@@ -526,9 +526,15 @@ class CoreRef:
     def refDeref(self, stack, inputTools, inputSandbox, pathsConfig, cache=None):
         if cache is None: cache = {}
         if self.__diffTools:
-            tools = inputTools.copy()
+            # The "None" key is the marker of a non-inheriting dependency
+            # (inherit: False): start without any ambient tool. It must not
+            # depend on which tools happen to be available at the place where
+            # the (possibly reused) core package is referenced.
+            tools = {} if None in self.__diffTools else inputTools.copy()
             for (name, tool) in self.__diffTools.items():
-                if tool is None:
+                if name is None:
+                    continue
+                elif tool is None:
                     del tools[name]
                 elif isinstance(tool, str):
                     tools[name] = inputTools[tool]
@@ -2602,9 +2608,9 @@ class Recipe(object):
             if not dep.inherit:
                 thisDepEnv = self.getRecipeSet().getRootEnv()
                 thisDepTools = Env()
-                # Compute the diff to remove all tools that were passed to the
-                # package.
-                thisDepDiffTools = { n : None for n in inputTools.inspect().keys() }
+                # Drop all tools that were passed to the package. The diff must
+                # not name them because the input tools are not tracked here.
+                thisDepDiffTools = { None : None }
                 thisDepSandbox = None
                 # Clear sandbox, if any
                 thisDepDiffSandbox = None
